@@ -9,6 +9,7 @@
 From Coq Require Import List NArith ZArith Bool.
 From Coq.Strings Require Import Byte.
 From EV Require Import Base.Bytes Gen.Tables Model.Script Proofs.Script Proofs.ScriptTemplates.
+From EV Require Gen.SrcScript Proofs.SrcScript.
 Import ListNotations.
 Open Scope N_scope.
 
@@ -73,6 +74,17 @@ Theorem C16_read_scriptint : forall v : bytes,
 Proof. exact read_scriptint_spec. Qed.
 
 (* ---------------------------------------------------------------------------------------------- templates *)
+(* the template predicates of the model are, one by one, the functions TRANSLATED from src/script.rs on every run (Gen/SrcScript.v, rust2coq):
+   a change of meaning of any of them in the source stops Proofs/SrcScript.v from compiling *)
+Theorem C16_templates_from_source : forall s : bytes,
+  SrcScript.src_Script_is_p2sh s = is_p2sh s /\ SrcScript.src_Script_is_p2pkh s = is_p2pkh s /\ SrcScript.src_Script_is_p2pk s = is_p2pk s
+  /\ SrcScript.src_Script_is_witness_program s = is_witness_program s /\ SrcScript.src_Script_is_v0_p2wsh s = is_v0_p2wsh s
+  /\ SrcScript.src_Script_is_v1_p2tr s = is_v1_p2tr s /\ SrcScript.src_Script_is_v1plus_p2witprog s = is_v1plus_p2witprog s
+  /\ SrcScript.src_Script_is_v0_p2wpkh s = is_v0_p2wpkh s /\ SrcScript.src_Script_is_op_return s = is_op_return s
+  /\ SrcScript.src_Script_is_provably_unspendable s = is_provably_unspendable s.
+Proof. intros s. repeat split; auto using SrcScript.src_is_p2sh, SrcScript.src_is_p2pkh, SrcScript.src_is_p2pk, SrcScript.src_is_witness_program,
+  SrcScript.src_is_v0_p2wsh, SrcScript.src_is_v1_p2tr, SrcScript.src_is_v1plus_p2witprog, SrcScript.src_is_v0_p2wpkh, SrcScript.src_is_op_return,
+  SrcScript.src_is_provably_unspendable. Qed.
 Theorem C16_templates : forall s : bytes,
   (is_p2pkh s = true <-> exists h, length h = 20%nat /\ s = x76 :: xa9 :: x14 :: h ++ [x88; xac]) /\
   (is_p2sh s = true <-> exists h, length h = 20%nat /\ s = xa9 :: x14 :: h ++ [x87]) /\
